@@ -370,7 +370,12 @@ func (lv *Live) Build(req BuildReq) (res BuildRes) {
 		res.RunErr = "parse: " + err.Error()
 		return
 	}
-	if err := lv.proj.Run(l, &dawn.RunOptions{Always: req.Always, DryRun: req.Dry}); err != nil {
+	// like Project.Watch, a plain build passes no options at all
+	var ropts *dawn.RunOptions
+	if req.Always || req.Dry {
+		ropts = &dawn.RunOptions{Always: req.Always, DryRun: req.Dry}
+	}
+	if err := lv.proj.Run(l, ropts); err != nil {
 		res.RunErr = err.Error()
 		settle(lv.rec)
 	}
